@@ -1,4 +1,4 @@
-import FteikVerif.Generated.KSolver3
+import FteikVerif.Generated.KSweep3
 import FteikVerif.Proofs.GenLemmas
 /-!
 # Tie C: the hand-written model agrees with the definitions translated from the source (`_fteik3d.py`)
